@@ -309,11 +309,12 @@ def single_worker_jobs(rng, tier, add):
 
 def big_find_jobs(rng, tier, add):
     # finds over 10^5 elements with chunks in the thousands: a late single match, matches in several chunks
-    for i in range(8 if tier == "quick" else 48):
-        src = rng.choice(("vec", "range", "iter", "iterx"))
-        sh = rng.choice(["", "m", "f"]) if src != "range" else ""
-        p = gen_prog(rng, src=src, shape=sh, n=8, nt=rng.choice([2, 4, 8]),
-                     cs=rng.choice([("cs", 2048), ("cs", 4096), ("csmin", 1500), ("cs", 10000)]))
+    for i in range(12 if tier == "quick" else 72):
+        explicit = i % 2 == 1
+        src = rng.choice(("vec", "range", "slice", "vec") if explicit else ("vec", "range", "iter", "iterx"))
+        sh = rng.choice(["", "m", "f"]) if src not in ("range", "slice") else rng.choice(["", "f"])
+        p = gen_prog(rng, src=src, shape=sh, n=8, nt=rng.choice([2, 3, 4] if explicit else [2, 4, 8]),
+                     cs=rng.choice([("cs", 2048), ("cs", 4096)] if explicit else [("cs", 2048), ("cs", 4096), ("csmin", 1500), ("cs", 10000)]))
         c_ = [o["v"] for o in p["ops"] if o["k"] in ("cs", "csmin")][0]
         if i % 2 == 0:
             # periodic input: matches everywhere
